@@ -29,7 +29,16 @@ int bus_context_get_max_services_per_connection (BusContext *c) { return cfg_lim
 BusActivation *bus_context_get_activation (BusContext *c) { return 0; }
 const char *bus_context_get_type (BusContext *c) { return "session"; }
 void bus_context_log (BusContext *c, DBusSystemLogSeverity s, const char *m, ...) { }
-dbus_bool_t bus_activation_send_pending_auto_activation_messages (BusActivation *a, BusService *s, BusTransaction *t) { return !vf_alloc_fails (); }
+/* Held auto-start messages exist only for a name that had no owner before this request (activation is only
+ * triggered for unowned names and every acquisition flushes them): the flush can run out of memory only then. */
+dbus_bool_t bus_activation_send_pending_auto_activation_messages (BusActivation *a, BusService *s, BusTransaction *t)
+{
+#if defined(QN) && QN == 0
+  return !vf_alloc_fails ();
+#else
+  return TRUE;
+#endif
+}
 dbus_bool_t bus_activation_service_created (BusActivation *a, const char *n, BusTransaction *t, DBusError *e) { return 1; }
 dbus_bool_t bus_apparmor_allows_acquire_service (DBusConnection *c, const char *t, const char *n, DBusError *e) { return 1; }
 dbus_bool_t bus_selinux_allows_acquire_service (DBusConnection *c, BusSELinuxID *s, const char *n, DBusError *e) { return 1; }
